@@ -84,7 +84,8 @@ class Module:
                         k, v = x.split('=', 1); self.job[k] = v
                     else:
                         self.job[x] = True
-            m = re.match(r'//\s*@subst\s+(\S+)\s+"(.*?)"\s*=>\s*"(.*?)"\s*$', l)
+            m = re.match(r'//\s*@subst\s+(\S+)\s+<<(.*?)>>\s*=>\s*<<(.*?)>>\s*$', l) or \
+                re.match(r'//\s*@subst\s+(\S+)\s+"(.*?)"\s*=>\s*"(.*?)"\s*$', l)
             if m:
                 self.substs.append((m.group(1), m.group(2), m.group(3)))
             m = re.match(r'//\s*@requires\s+(.*)$', l)
